@@ -1,7 +1,7 @@
 """C05 -- every committed version is well formed (LanceTable: WellFormed on every step of every history)."""
 from checks import table_common as T
 
-FAMILIES = [{'name': 'all', 'ids': [1, 2, 3, 4], 'vals': [5], 'maxv': 7, 'maxops': 2, 'maxops_thorough': 3, 'stable': [True, False], 'opkinds': ['append', 'delete', 'update', 'upsert', 'compact', 'overwrite', 'restore', 'checkout']}]
+FAMILIES = [{'name': 'all', 'ids': [1, 2, 3, 4], 'vals': [5], 'maxv': 7, 'maxops': 2, 'maxops_thorough': 3, 'stable': [True, False], 'opkinds': ['append', 'delete', 'update', 'upsert', 'compact', 'overwrite', 'restore', 'checkout', 'colupdate']}]
 
 
 def run(prop, tier, replay):
